@@ -66,23 +66,32 @@ Proof. exact run_completes_. Qed.
 Print Assumptions C29_multiple_run_completes.
 
 (* ---------------- names as strings ---------------- *)
-(* FULL: forall modname tag, module_name modname tag = file_stem modname tag  -- false, see
-   C29_names_match_refuted; proved when "_mod" is in lower case or absent in every case *)
+(* FULL: forall modname tag, module_name false modname tag = file_stem modname tag  -- false of
+   the code as it is ([false] = case-sensitive _new_name), see C29_names_match_refuted; proved
+   when "_mod" is in lower case or absent in every case, and in full for the repaired variant *)
 Theorem C29_names_match_partial : forall modname tag,
-  suffix_case_ok modname = true -> module_name modname tag = file_stem modname tag.
+  suffix_case_ok modname = true -> module_name false modname tag = file_stem modname tag.
 Proof. exact names_match_partial_. Qed.
 Print Assumptions C29_names_match_partial.
 
 Theorem C29_names_match_refuted :
-  exists modname tag, lower (module_name modname tag) <> lower (file_stem modname tag).
+  exists modname tag, lower (module_name false modname tag) <> lower (file_stem modname tag).
 Proof. exact names_match_refuted_. Qed.
 Print Assumptions C29_names_match_refuted.
 
-Theorem C29_names_tagged : forall modname kname tag,
+Theorem C29_names_match_fixed : forall modname tag,
+  module_name true modname tag = file_stem modname tag.
+Proof. exact names_match_fixed_. Qed.
+Print Assumptions C29_names_match_fixed.
+
+Theorem C29_names_tagged : forall ci modname kname tag,
   (exists p, file_name modname tag = p ++ tag ++ S_ "_mod.f90"%string) /\
-  (exists p, module_name modname tag = p ++ tag ++ S_ "_mod"%string) /\
-  (exists p, routine_name kname tag = p ++ tag ++ S_ "_code"%string).
-Proof. intros m k t. exact (conj (file_tagged_ m t) (conj (module_tagged_ m t) (routine_tagged_ k t))). Qed.
+  (exists p, module_name ci modname tag = p ++ tag ++ S_ "_mod"%string) /\
+  (exists p, routine_name ci kname tag = p ++ tag ++ S_ "_code"%string).
+Proof.
+  intros ci m k t.
+  exact (conj (file_tagged_ m t) (conj (module_tagged_ ci m t) (routine_tagged_ ci k t))).
+Qed.
 Print Assumptions C29_names_tagged.
 
 (* ---------------- 'single' scheme ---------------- *)
@@ -172,10 +181,11 @@ Example C29_names_nonvacuous :
   suffix_case_ok (S_ "testkern_mod"%string) = true /\ suffix_case_ok (S_ "TESTKERN_mod"%string) = true /\
   suffix_case_ok (S_ "testkern"%string) = true /\ suffix_case_ok (S_ "testkern_MOD"%string) = false /\
   file_name (S_ "testkern_mod"%string) (S_ "_3"%string) = S_ "testkern_3_mod.f90"%string /\
-  module_name (S_ "testkern_mod"%string) (S_ "_3"%string) = S_ "testkern_3_mod"%string /\
-  routine_name (S_ "testkern_code"%string) (S_ "_3"%string) = S_ "testkern_3_code"%string /\
-  module_name (S_ "testkern"%string) (S_ "_0"%string) = S_ "testkern_0_mod"%string /\
-  module_name (S_ "testkern_MOD"%string) (S_ "_0"%string) = S_ "testkern_MOD_0_mod"%string /\
+  module_name false (S_ "testkern_mod"%string) (S_ "_3"%string) = S_ "testkern_3_mod"%string /\
+  routine_name false (S_ "testkern_code"%string) (S_ "_3"%string) = S_ "testkern_3_code"%string /\
+  module_name false (S_ "testkern"%string) (S_ "_0"%string) = S_ "testkern_0_mod"%string /\
+  module_name false (S_ "testkern_MOD"%string) (S_ "_0"%string) = S_ "testkern_MOD_0_mod"%string /\
+  module_name true (S_ "testkern_MOD"%string) (S_ "_0"%string) = S_ "testkern_0_mod"%string /\
   file_name (S_ "testkern_MOD"%string) (S_ "_0"%string) = S_ "testkern_0_mod.f90"%string.
 Proof. exact names_nonvacuous. Qed.
 Print Assumptions C29_names_nonvacuous.
